@@ -178,6 +178,14 @@ static void elim_hybrid_case(const vh_args_t *a, int which) {
   vh_free_all();
 }
 
+/* calls with the largest admissible explicit table parameters, run by every thread of the threads family right after the
+ * start barrier: state that the library sets up on first use (code books, tables) is first touched concurrently */
+void vh_firstuse_cases(void) {
+  elim_sweep_case(9, 54, 1);
+  elim_sweep_case(10, 60, 0);
+  elim_sweep_case(10, 31, 2);
+}
+
 int fam_elim(const vh_args_t *a) {
   int ncases = a->cases ? a->cases : (a->tier ? 4000 : 700);
   for (long idx = 0; idx < ncases; idx++) {
